@@ -41,7 +41,7 @@ def apply_subst(q, st):
     return q
 
 
-def check_operator_impls(rule, facts, unit, crate, self_filter, transparent=("coeffs", "evaluations", "evals"), tuple_rhs=False):
+def check_operator_impls(rule, facts, unit, crate, self_filter, transparent=("coeffs", "evaluations", "evals"), tuple_rhs=False, on_undecided=None):
     n = 0
     models = SX.ring_models(conv_models)
     for fn in facts.fns(unit=unit, crate=crate):
@@ -90,6 +90,8 @@ def check_operator_impls(rule, facts, unit, crate, self_filter, transparent=("co
                 bad = (got, want, p.assume)
                 break
         if not decided or not paths:
+            if on_undecided is not None:
+                on_undecided(fn, key)
             continue
         n += 1
         if bad:
